@@ -86,6 +86,12 @@ def idxInsert (e : Nat × Nat) : List (Nat × Nat) → List (Nat × Nat)
 
 def idxErase (e : Nat × Nat) (l : List (Nat × Nat)) : List (Nat × Nat) := l.filter (fun x => x != e)
 
+instance instDecEqExcept {ε α : Type} [DecidableEq ε] [DecidableEq α] : DecidableEq (Except ε α)
+  | .ok a, .ok b => if h : a = b then isTrue (by rw [h]) else isFalse (fun e => h (by cases e; rfl))
+  | .error a, .error b => if h : a = b then isTrue (by rw [h]) else isFalse (fun e => h (by cases e; rfl))
+  | .ok _, .error _ => isFalse (fun e => by cases e)
+  | .error _, .ok _ => isFalse (fun e => by cases e)
+
 def sumInts (l : List Int) : Int := l.foldl (· + ·) 0
 
 end PoaVerif
